@@ -1,6 +1,9 @@
 SPECIFICATION Spec
 INVARIANT RegimeTotal
 INVARIANT RegimeContinuity
-INVARIANT ModelMeetsToleranceOutsideBand
-INVARIANT BandIsPredicted
+INVARIANT ModelMeetsTolerance
+INVARIANT OldModelOutsideBand
+INVARIANT OldBandWasPredicted
+INVARIANT RepairCoversOldBand
+INVARIANT RepairNoWorse
 CHECK_DEADLOCK FALSE
